@@ -356,3 +356,111 @@ Definition final_orig (cfg : config) (q : request) (f : field) : val :=
                         | Wr o w => if obj_eqb o (orig f) then w else v
                         | Rd _ => v end)
             (accs (endpoint_prog cfg q)) (init_vals q f).
+
+(* ---------------- ownership effect of one function / middleware, unit level ----------------
+   Which reference fields of the request a stage hands on are the SAME objects as the ones it
+   was handed, and which are fresh.  Observed on the real functions by pointer identity. *)
+Inductive akind := AClone | ACloneRequest | AHdrFilter | AQryFilter | ABuilder | AGraphQL | ABalancer.
+
+(* (source state afterwards, state handed on); None: the stage returns without calling next *)
+Definition stage_effect (kd : akind) (b : backend) (q : request) : option (pst * pst) :=
+  let s := init_pst q in
+  let own := WAt 0 0 in
+  match kd with
+  | AClone => Some (s, snd (shallow_clone (Ob own SMerge FStruct) s))
+  | ACloneRequest => let '(_, s', c) := deep_clone own SConc (SConcSrc 0) WEnd s in Some (s', c)
+  | AHdrFilter => Some (s, snd (filter_stage own SHF FHdr (b_hdrs b) s))
+  | AQryFilter => Some (s, snd (filter_stage own SQF FQry (b_qs b) s))
+  | ABuilder => let c := snd (rb_stage b s) in Some (c, c)   (* in place: the caller's struct *)
+  | AGraphQL => match b_gql b with
+                | None => Some (s, s)
+                | Some g => match snd (gql_stage own g s) with Some c => Some (c, c) | None => None end
+                end
+  | ABalancer => let c := snd (lb_stage b s) in Some (c, c)
+  end.
+
+Definition all_fields : list field := [FStruct; FHdr; FQry; FPar; FBody; FVals].
+(* per field: is the object handed on the one received? *)
+Definition same_objects (s c : pst) : list bool := map (fun f => obj_eqb (pv c f) (pv s f)) all_fields.
+
+(* ---------------- line-level models ----------------
+   Request.Clone, CloneRequest (with CloneRequestHeaders / CloneRequestParams), the header and
+   query-string filters and the request builder, statement by statement, as events on memory
+   LOCATIONS finer than the objects of the summaries above: a field slot of a Request struct,
+   a map header (len / make / range), one map entry, the backing array of one value slice, a
+   reader.  Proof/C03_lines.v proves that the object-level summaries used by the fork-tree
+   model cover these events. *)
+Inductive fname := NMethod | NURL | NQuery | NPath | NBody | NParams | NHeaders.
+Inductive loc :=
+| LField (o : obj) (n : fname)
+| LMapHdr (o : obj)
+| LMapEntry (o : obj) (k : string)
+| LElems (o : obj) (k : string)
+| LReader (o : obj).
+Inductive fev := FR (l : loc) | FW (l : loc).
+Definition obj_of (l : loc) : obj :=
+  match l with LField o _ | LMapHdr o | LMapEntry o _ | LElems o _ | LReader o => o end.
+Definition floc (e : fev) : loc := match e with FR l | FW l => l end.
+Definition is_fw (e : fev) : bool := match e with FW _ => true | FR _ => false end.
+
+Definition all_fnames : list fname := [NMethod; NURL; NQuery; NPath; NBody; NParams; NHeaders].
+Definition par_of (s : pst) : list (string * string) := match px s FPar with VPar m => m | _ => [] end.
+
+(* request.go: func (r *Request) Clone() Request - reads r.URL (re-parsed into a private
+   *url.URL) and every other field, builds the struct literal *)
+Definition clone_lines (s : pst) (c : obj) : list fev :=
+  (FR (LField (pv s FStruct) NURL) :: map (fun n => FR (LField (pv s FStruct) n)) all_fnames ++
+   map (fun n => FW (LField c n)) all_fnames)%list.
+
+(* request.go: CloneRequestHeaders - make(map, len(headers)); for k, vs := range headers
+   { tmp := make([]string, len(vs)); copy(tmp, vs); m[k] = tmp } *)
+Definition clone_headers_lines (s : pst) (newh newv : obj) : list fev :=
+  (FR (LMapHdr (pv s FHdr)) :: FW (LMapHdr newh) ::
+   flat_map (fun kv => [FR (LMapEntry (pv s FHdr) (fst kv)); FW (LElems newv (fst kv));
+                        FR (LElems (pv s FVals) (fst kv)); FW (LElems newv (fst kv));
+                        FW (LMapEntry newh (fst kv))]) (hdr_of s))%list.
+(* request.go: CloneRequestParams *)
+Definition clone_params_lines (s : pst) (newp : obj) : list fev :=
+  (FR (LMapHdr (pv s FPar)) :: FW (LMapHdr newp) ::
+   flat_map (fun kv => [FR (LMapEntry (pv s FPar) (fst kv)); FW (LMapEntry newp (fst kv))]) (par_of s))%list.
+
+(* request.go: func CloneRequest(r *Request) *Request *)
+Definition clonerequest_lines (own : owner) (st src_site : site) (src_own : owner) (s : pst) : list fev :=
+  let c := Ob own st FStruct in
+  (clone_lines s c ++                                             (* clone := r.Clone() *)
+   FR (LField (pv s FStruct) NHeaders) :: clone_headers_lines s (Ob own st FHdr) (Ob own st FVals) ++
+   FW (LField c NHeaders) ::                                      (* clone.Headers = CloneRequestHeaders(r.Headers) *)
+   FR (LField (pv s FStruct) NParams) :: clone_params_lines s (Ob own st FPar) ++
+   FW (LField c NParams) ::                                       (* clone.Params = CloneRequestParams(r.Params) *)
+   FR (LField (pv s FStruct) NBody) ::                            (* if r.Body == nil { return &clone } *)
+   (if has_body s then
+      [FR (LReader (pv s FBody)); FW (LReader (pv s FBody));      (* buf.ReadFrom(r.Body) *)
+       FW (LReader (pv s FBody));                                 (* r.Body.Close() *)
+       FW (LReader (Ob src_own src_site FBody)); FW (LField (pv s FStruct) NBody);  (* r.Body = io.NopCloser(...) *)
+       FW (LReader (Ob own st FBody)); FW (LField c NBody)]       (* clone.Body = io.NopCloser(buf) *)
+    else []))%list.
+
+(* headers_filter.go / query_strings_filter.go (same shape): len(map) == 0; count the allowed
+   keys (range); all allowed -> hand the request on; else make a map, copy the listed entries
+   (the value slices themselves are NOT copied) and build a new Request literal *)
+Definition filter_lines (own : owner) (st : site) (f : field) (n : fname) (allow : list string) (s : pst) : list fev :=
+  match allow with
+  | [] => []
+  | _ =>
+    let m := match px s f with VMap m => m | _ => [] end in
+    let head := (FR (LField (pv s FStruct) n) :: FR (LMapHdr (pv s f)) ::
+                 map (fun kv => FR (LMapEntry (pv s f) (fst kv))) m)%list in
+    if all_allowed allow m then head
+    else (head ++ FW (LMapHdr (Ob own st f)) ::
+          flat_map (fun k => FR (LMapEntry (pv s f) k) ::
+                             match lookup k m with Some _ => [FW (LMapEntry (Ob own st f) k)] | None => [] end) allow ++
+          map (fun x => FR (LField (pv s FStruct) x)) all_fnames ++
+          map (fun x => FW (LField (Ob own st FStruct) x)) all_fnames)%list
+  end.
+
+(* http.go newRequestBuilderMiddleware: r.GeneratePath(remote.URLPattern) (request.go: len(r.Params),
+   range r.Params, r.Path = ...); r.Method = remote.Method *)
+Definition builder_lines (s : pst) : list fev :=
+  (FR (LField (pv s FStruct) NParams) :: FR (LMapHdr (pv s FPar)) ::
+   map (fun kv => FR (LMapEntry (pv s FPar) (fst kv))) (par_of s) ++
+   [FW (LField (pv s FStruct) NPath); FW (LField (pv s FStruct) NMethod)])%list.
